@@ -34,6 +34,43 @@ theorem bareP_isEmpty (xs : List (PyVal × PyVal)) : (bareP xs).isEmpty = xs.isE
   | nil => simp [bareP]
   | cons p r => obtain ⟨k, v⟩ := p; simp [bareP]
 
+theorem isListLit_bare : ∀ (x : PyVal), isListLit (stripComments (bare x)) = isListLit (stripComments x)
+  | .commented v _ => by simp only [bare, stripComments]; exact isListLit_bare v
+  | .trailing v _ => by simp only [bare, stripComments]; exact isListLit_bare v
+  | .seq k c xs => by
+      simp only [bare, stripComments]
+      cases xs with
+      | nil => simp [bareL, isListLit]
+      | cons y ys => cases k <;> cases c <;> simp [bareL, isListLit]
+  | .frozenset _ _ => rfl
+  | .dict _ _ => rfl
+  | .call _ _ _ => rfl
+  | .none => rfl
+  | .ellipsis => rfl
+  | .bool _ => rfl
+  | .int _ _ _ => rfl
+  | .float _ _ _ _ _ => rfl
+  | .str _ _ _ => rfl
+  | .opaque _ => rfl
+  | .timedelta _ _ _ => rfl
+  | .ident _ => rfl
+  | .path _ _ => rfl
+
+theorem fsetLit_bare (f : QualName) (args : List PyVal) (kwargs : List (Str × PyVal)) :
+    fsetLit f (bareL args) (bareK kwargs) = fsetLit f args kwargs := by
+  have hk : (bareK kwargs).isEmpty = kwargs.isEmpty := by
+    cases kwargs with
+    | nil => rfl
+    | cons p r => obtain ⟨k, v⟩ := p; simp [bareK]
+  have ha : soleListLit (bareL args) = soleListLit args := by
+    cases args with
+    | nil => rfl
+    | cons x r =>
+      cases r with
+      | nil => simp only [bareL, soleListLit]; exact isListLit_bare x
+      | cons x2 r2 => simp [bareL, soleListLit]
+  simp only [fsetLit, hk, ha]
+
 mutual
 /-- comments are invisible to what a value denotes -/
 theorem erase_bare : (v : PyVal) → erase (bare v) = erase v
@@ -42,7 +79,7 @@ theorem erase_bare : (v : PyVal) → erase (bare v) = erase v
   | .seq k c xs => by simp only [bare, erase, eraseL_bare xs, bareL_isEmpty]
   | .frozenset c xs => by simp only [bare, erase, eraseL_bare xs, bareL_isEmpty]
   | .dict c kvs => by simp only [bare, erase, eraseP_bare kvs, bareP_isEmpty]
-  | .call f args kwargs => by simp only [bare, erase, eraseL_bare args, eraseK_bare kwargs]
+  | .call f args kwargs => by simp only [bare, erase, eraseL_bare args, eraseK_bare kwargs, fsetLit_bare]
   | .none => rfl
   | .ellipsis => rfl
   | .bool _ => rfl
@@ -86,7 +123,7 @@ theorem inRd_bare : (v : PyVal) → inRd v = true → inRd (bare v) = true
   | .call f args kwargs, h => by
       simp only [inRd, Bool.and_eq_true] at h
       simp only [bare, inRd, Bool.and_eq_true]
-      exact ⟨⟨h.1.1, inRdL_bare args h.1.2⟩, inRdK_bare kwargs h.2⟩
+      exact ⟨⟨by rw [fsetLit_bare]; exact h.1.1, inRdL_bare args h.1.2⟩, inRdK_bare kwargs h.2⟩
   | .none, h => h
   | .ellipsis, h => h
   | .bool _, h => h
